@@ -248,6 +248,47 @@ func c14RunFrame(c *c14Runner, frame []byte) {
 		c14Case{Type: "frame", Frame: vlib.Hex(frame)}, func() string { return c14FrameSite })
 }
 
+// c14CompleteSeeds: one structurally complete value per top-level decoder (per message type for
+// fuzz.Message): every list has an element (so a block carries a ticket, a preimage, a guarantee with
+// a work result, an assurance, a verdict, a culprit and a fault, both header marks and an offender),
+// mutated with EVERY byte value 0..255 at EVERY position (plus the prefixes and insertions), so that
+// every discriminator / enum / bool / length byte, however deep, takes all its values. Split into
+// 192-position chunks for sharding.
+func c14CompleteSeeds() []cgenSeed {
+	var out []cgenSeed
+	for _, n := range c14TopLevel {
+		if c14ViaMessage[n] {
+			continue // reached through fuzz.Message below (same bytes behind a 5-byte header)
+		}
+		ct := cgenByName[n]
+		bases := [][]cgenDev{nil}
+		if ct.T == cgenTMessage {
+			bases = nil
+			for i := range cgenMsgTags {
+				if i == 0 {
+					bases = append(bases, nil)
+				} else {
+					bases = append(bases, []cgenDev{{"#tag", i}})
+				}
+			}
+		}
+		for _, base := range bases {
+			devs := cgenComplete(ct.T, base, ct.Ctx)
+			v, _ := cgenBuild(ct.T, devs, ct.Ctx)
+			var enc []byte
+			var err error
+			if p, _, _ := vlib.Guard(func() { enc, err = ct.Enc(v.Addr()) }); p || err != nil || len(enc) > 16384 {
+				continue
+			}
+			const chunk = 192
+			for from := 0; from <= len(enc); from += chunk {
+				out = append(out, cgenSeed{ct: ct, devs: devs, enc: enc, structural: true, fullLattice: true, posFrom: from, posTo: from + chunk})
+			}
+		}
+	}
+	return out
+}
+
 const c14FrameUnitBase = uint64(1) << 40
 
 func TestVerif_C14(t *testing.T) {
@@ -335,6 +376,7 @@ func TestVerif_C14(t *testing.T) {
 		}
 		all = append(all, cgenSeedsSel(cgenByName[n], 1, 4096, !r.Thorough())...)
 	}
+	all = append(all, c14CompleteSeeds()...)
 	var units []cgenSeed
 	byUnit := map[uint64]cgenSeed{}
 	var planned uint64
